@@ -130,4 +130,15 @@ Fixpoint spec_run (m : omap) (steps : list (op * out)) : bool :=
       end
   end.
 
+(* the map after a fully judged, fully in-scope history (None otherwise) *)
+Fixpoint spec_final (m : omap) (steps : list (op * out)) : option omap :=
+  match steps with
+  | [] => Some m
+  | (o, r) :: rest =>
+      match spec_check m o r with
+      | SOk m' => spec_final m' rest
+      | _ => None
+      end
+  end.
+
 End SPEC.
